@@ -377,7 +377,7 @@ def check_lig(case):
             hsize = vols[resinfo["CH4" if hm in names["CH4"] else "W"][hr][0]]
             step = (hsize + vols["W"]) / 2.0
             dist = np.linalg.norm(O.min_image(pos[(hm, hr)] - pos[(lm, 0)], box))
-            if abs(dist - step) > 2e-3:
+            if not abs(dist - step) <= 2e-3:
                 viols.append(dict(assertion="ligand-one-step-from-host", tags=[],
                                   message=f"-lig {hspec}:{lspec}: ligand molecule {lm} is {dist:.4f} nm from host residue {(hm, hr)}, step {step}", case=case1, detail={}))
         keys.append(f"lig:{hspec}:{lspec}")
@@ -419,7 +419,7 @@ def check_lig_unnamed(case):
             for (hm, hr), lm in zip(hosts, ligs):
                 step = (G.DEFAULT_VOLUMES[resinfo[hr][0]] + G.DEFAULT_VOLUMES["W"]) / 2.0
                 dist = np.linalg.norm(O.min_image(pos[(hm, hr)] - pos[(lm, 0)], box))
-                if abs(dist - step) > 2e-3 and len(viols) < 20:
+                if not abs(dist - step) <= 2e-3 and len(viols) < 20:
                     viols.append(dict(assertion="ligand-one-step-from-host", tags=["host-molecule-unnamed"],
                                       message=f"-lig {hspec}:{lspec}: ligand molecule {lm} is {dist:.4f} nm from host residue {(hm, hr)}, step {step}", case=case1, detail={}))
             keys.append(f"ligu:{hspec}:{lspec}")
@@ -451,7 +451,7 @@ def check_lig_mismatch(case):
         for mi in (0, 3, 4):
             for r in range(3):
                 dist = np.linalg.norm(O.min_image(pos[(mi, r)] - pos[(mi, r + 1)], box))
-                if abs(dist - 0.75) > 2e-3 and len(viols) < 20:
+                if not abs(dist - 0.75) <= 2e-3 and len(viols) < 20:
                     viols.append(dict(assertion="contradictory-ligand-spec-selects-nothing", tags=[f"side:{side}"],
                                       message=f"-lig {hspec}:{lspec} (molecule name and index disagree on the {side} side) was accepted and molecule {mi} is no longer "
                                               f"built as a chain: residues {r},{r + 1} are {dist:.3f} nm apart", case=case1, detail={}))
@@ -491,7 +491,7 @@ def check_lig_two(case):
         for hm, hr, lm in ((hm1, hr1, lm1), (hm2, hr2, lm2)):
             step = (G.DEFAULT_VOLUMES[resinfo["CH4"][hr][0]] + G.DEFAULT_VOLUMES["W"]) / 2.0
             dist = np.linalg.norm(O.min_image(pos[(hm, hr)] - pos[(lm, 0)], box))
-            if abs(dist - step) > 2e-3 and len(viols) < 20:
+            if not abs(dist - step) <= 2e-3 and len(viols) < 20:
                 viols.append(dict(assertion="ligand-one-step-from-host", tags=["two-ligand-options"],
                                   message=f"-lig {s2['kwargs']['ligands']}: ligand molecule {lm} is {dist:.4f} nm from host residue {(hm, hr)}, step {step}", case=case1, detail={}))
         keys.append(f"lig2:{a}:{b}")
